@@ -76,3 +76,9 @@ claim(
     "Seeded random exploration of control-flow-heavy functions and generators (nested loops x try/finally x early exits, driven by next/send/throw/close/drop scripts); entry/exit bracketing, exactly one value-or-error per ended activation with the value/exception reported by the interpreter itself, one yield per PY_YIELD, one receive per next/send resumption, properly nested loop begin/end on every exit, and wrapper-probe begin/end pairs. Held-on-observed apart from one listed known finding.",
     "Programs whose `return` is followed by a finally clause are routed to the known-finding stream (value-event-superseded-by-finally); order of #value relative to events produced by later finally clauses is not asserted.",
 )
+claim(
+    "C04",
+    "differential execution monitor: the real program under 1-3 overriding handlers (all six override mechanisms, random nesting with plain probes) vs the hooked twin run with a substituting hook implementing 'most recently activated non-declining handler wins'",
+    "Seeded random exploration over the C01 program space x focus positions (parameters, all assignment forms, loop/with targets, attribute stores, return value) x override functions (constant, of tentative value, of context, conditional/declining) x mechanisms x nesting orders; result, exception, generator trace, ordered side-effect log and state must equal the substituted twin's, plain probes inside and outside must see the substituted values, and closure-variable overrides must raise OverrideException without touching the cell. Held-on-observed.",
+    "Override functions decline for non-int tentative values; an overridable probe's own stream is not asserted.",
+)
